@@ -767,6 +767,13 @@ class Engine(object):
             m = self.find_method(container.cls, "__contains__")
             if m is not None:
                 return [(s_, truth(v_) if not isinstance(v_, Raised) else v_) for s_, v_ in self.call_function(m[0].bind(container), [item], {}, st, node)]
+        if isinstance(container, ClassRef) and any((getattr(b, "id", None) or getattr(b, "attr", None)) in ("IntEnum", "Enum") for b in container.node.bases):
+            # `x in SomeEnum` for an enumeration of the repository: membership among its values
+            real = getattr(container.mod.pymod, container.node.name)
+            vals = [int(m) for m in real]
+            if isinstance(item, (OptV,)) or item is NONE or isinstance(item, (str, StrV)):
+                return [(st, False)]
+            return [(st, b_or(*[equal(item, x) for x in vals]))]
         if isinstance(container, PyObj):
             import enum
             if isinstance(container.obj, type) and issubclass(container.obj, enum.Enum):
